@@ -473,6 +473,11 @@ fn do_spawn(plan: &Plan, spec: &SpawnSpec, si: usize, pool: &Pool, boot: &[Optio
                             // the search gave up although a later PATH entry holds a startable candidate
                             violate("wrong_candidate", format!("wrong_candidate/gave_up/errno={:?}", code), format!("{}: PATH search failed with {:?} although candidate {:?} can be started (candidates in order: {:?})", ctx, e, String::from_utf8_lossy(img), mo.cands.iter().map(|c| String::from_utf8_lossy(c).into_owned()).collect::<Vec<_>>()));
                         }
+                        if spec.executable.is_some() {
+                            // "the first argument as its program name even when a different executable is
+                            // named": the named executable can be started, whatever argv[0] looks like
+                            violate("image", format!("image/executable_override_not_started/errno={:?}", code), format!("{}: executable {:?} with argv[0] {:?} can be started, the launch failed with {:?}", ctx, spec.executable.as_ref().map(|e| String::from_utf8_lossy(e).into_owned()), String::from_utf8_lossy(&spec.argv[0]), e));
+                        }
                         if spec.cwd.is_some() && (spec.setuid.is_some() || spec.setgid.is_some()) && matches!(code, Some(libc::EACCES) | Some(libc::ENOENT) | Some(libc::EPERM)) {
                             // both a working directory and an identity were requested and the combination is
                             // feasible (the model starts it): the requested settings must all take effect
@@ -1109,6 +1114,10 @@ fn gen_bytes(rng: &mut Rng, maxlen: usize, nul_ok: bool) -> Vec<u8> {
 }
 
 fn gen_key(rng: &mut Rng) -> Vec<u8> {
+    // names that differ only in the case of their letters are different names
+    if rng.chance(1, 8) {
+        return rng.pick(&[&b"http_proxy"[..], b"HTTP_PROXY", b"Http_Proxy", b"path", b"Path", b"home", b"lang"]).to_vec();
+    }
     let n = 1 + rng.below(10) as usize;
     (0..n).map(|_| *rng.pick(b"ABCDEFGHIJKLMNOPQRSTUVWXYZabcdefxyz_0123456789\xc3\xa9")).collect()
 }
@@ -1375,6 +1384,12 @@ pub fn generate(prop: &str, rng: &mut Rng, plan: &mut Plan, index: u64) {
                 }
                 // a signal handler runs while the parent waits for the launch status (or, with a
                 // failing launch, for the child): the launch must neither fail nor lose the child
+                // the failed child takes its time to go away: it must still be waited for
+                58 | 59 => {
+                    f.exit_lag_ns = *crng.pick(&[20_000_000u64, 200_000_000, 3_000_000_000]);
+                    spec.argv[0] = b"/bin/missing".to_vec();
+                    spec.detached = point == 59;
+                }
                 60 => f.eintr = Some((1, 1, 2)),
                 61 => {
                     f.eintr = Some((1, 2, 6));
@@ -1501,8 +1516,25 @@ pub fn generate(prop: &str, rng: &mut Rng, plan: &mut Plan, index: u64) {
                     }
                 }
                 2 => {
-                    spec.executable = Some(cmd.clone().into_bytes());
-                    spec.argv[0] = b"shown-name".to_vec();
+                    // an explicitly named executable follows the same rules, whatever argv[0] looks like
+                    match rng.below(3) {
+                        0 => {
+                            spec.executable = Some(cmd.clone().into_bytes());
+                            spec.argv[0] = b"shown-name".to_vec();
+                        }
+                        1 => {
+                            // bare executable (searched), argv[0] with slashes
+                            spec.executable = Some(cmd.clone().into_bytes());
+                            spec.argv[0] = b"/opt/shown/name".to_vec();
+                        }
+                        _ => {
+                            // executable with a slash (no search, relative to the child's cwd), bare argv[0]
+                            plan.fs.push(FsEntry { path: format!("/work/sub/{}", cmd), node: Node::Exe { prog: 0 }, raw: None });
+                            spec.executable = Some(format!("./{}", cmd).into_bytes());
+                            spec.argv[0] = b"shown".to_vec();
+                            spec.cwd = Some(b"/work/sub".to_vec());
+                        }
+                    }
                 }
                 _ => spec.argv[0] = cmd.clone().into_bytes(),
             }
@@ -1550,6 +1582,20 @@ pub fn generate(prop: &str, rng: &mut Rng, plan: &mut Plan, index: u64) {
             }
             if nent > 0 && rng.chance(2, 3) {
                 plan.parent.env[0].1 = entries.join(":");
+                if rng.chance(1, 5) {
+                    // a PATH entry that is not valid UTF-8 (searched before the others)
+                    let mut dir = b"/q/odd".to_vec();
+                    dir.push(0xff);
+                    dir.extend_from_slice(b"dir");
+                    if rng.chance(1, 2) {
+                        dir.push(b'/');
+                    }
+                    plan.fs.push(FsEntry { path: String::new(), node: Node::Dir { searchable: true }, raw: Some(dir.iter().cloned().filter(|b| true || *b != 0).collect::<Vec<u8>>().strip_suffix(b"/").map(|x| x.to_vec()).unwrap_or(dir.clone())) });
+                    let mut raw = dir.clone();
+                    raw.push(b':');
+                    raw.extend_from_slice(entries.join(":").as_bytes());
+                    plan.parent.path_raw = Some(raw);
+                }
                 spec.argv[0] = cmd.into_bytes();
             } else if !succeed {
                 // every way an exec can fail: nothing there, not executable, a directory, not a binary
@@ -1618,6 +1664,22 @@ pub fn generate(prop: &str, rng: &mut Rng, plan: &mut Plan, index: u64) {
                         spec.stderr = RedirSpec::None;
                     }
                     spec.sigpipe_probe = true;
+                }
+                // found by name on the PATH, after some candidates that cannot be started (whatever the
+                // child does between two attempts must not leave a trace in the program that runs)
+                if rng.chance(1, 3) {
+                    let base = String::from_utf8_lossy(&spec.argv[0]).rsplit('/').next().unwrap_or("prog").to_string();
+                    let misses = 1 + rng.below(3) as usize;
+                    let mut dirs: Vec<String> = (0..misses).map(|i| format!("/p/miss{}", i)).collect();
+                    for (i, d) in dirs.iter().enumerate() {
+                        plan.fs.push(FsEntry { path: d.clone(), node: Node::Dir { searchable: true }, raw: None });
+                        if i % 2 == 1 {
+                            plan.fs.push(FsEntry { path: format!("{}/{}", d, base), node: Node::NoExec, raw: None });
+                        }
+                    }
+                    dirs.push("/bin".into());
+                    plan.parent.env[0].1 = dirs.join(":");
+                    spec.argv[0] = base.into_bytes();
                 }
                 spec.via_exec = rng.chance(1, 3);
                 sp.spawns.push(spec);
